@@ -1,7 +1,7 @@
 """C03 / C04 / C10 / C11: the master side (specs/Arbiter.tla, the real Arbiter.run() on the simulated kernel,
 props/arbiter.py) combined with the worker / client side on real processes and the in-process sync loop
 (props/shutdown_real.py, props/reload_real.py, props/syncloop.py)."""
-from props import arbiter, shutdown_real, reload_real
+from props import arbiter, shutdown_real, reload_real, boot_real
 
 
 def c03(ctx):
@@ -13,6 +13,8 @@ def c03(ctx):
         arbiter.CHECKS["C03"](ctx)
     finally:
         os.environ.pop("VERIF_BOOT_SWALLOW", None)
+    # workers that cannot boot, on real processes (the simulated kernel's workers do not run the worker code)
+    boot_real.boot_side(ctx)
 
 
 def c04(ctx):
@@ -36,7 +38,8 @@ def replay(ctx, data):
     if isinstance(meta, dict) and ("wk" in meta and ("phases" in meta or "scenario" in meta or "nhup" in meta)):
         import json
         import tlc
-        mod = "ShutdownTrace" if "phases" in meta else "TimeoutTrace" if "scenario" in meta else "ReloadTrace"
+        mod = "ShutdownTrace" if "phases" in meta else "BootTrace" if "forks" in meta else \
+            "TimeoutTrace" if "scenario" in meta else "ReloadTrace"
         print(json.dumps(meta)[:1500])
         verdicts, _ = tlc.validate_batch(mod, mod + ".cfg", [case["trace"]], name=mod + "_replay")
         print("verdict of the recorded real-process trace:", verdicts[0])
